@@ -1098,7 +1098,9 @@ pub fn gen_c08(ctx: &Ctx, run: u64) -> ScenarioB {
             3..=7 => rng.range(6, 7),
             _ => max_depth as u64,
         };
-        (GoSpec::depth(d.min(max_depth as u64) as u8), None)
+        // the smallest limit a GUI can ask for: no iteration may be reported at all
+        let d = if rng.chance(1, 80) { 0 } else { d.min(max_depth as u64) };
+        (GoSpec::depth(d as u8), None)
     } else {
         let (g, s, _) = gen_limit_b(&mut rng, white, poll_interval, tau_ps, max_depth);
         (g, s)
